@@ -29,7 +29,7 @@ const shim = "github.com/keep-network/keep-core/pkg/verifshim/"
 //	maprange:<expr>       – route `for … := range <expr>` through vsched.MapOrder
 //	loops                 – insert vsched.LoopHook(site) at the top of every for body
 //	chanrange:<expr>      – rewrite `for v := range <expr>` over a channel into Recv2 loop
-//	racy:<func>           – in function/method <func>: a scheduling point before every
+//	racy:<func>           – in function/method <func> (racy:* = every function of the file): a scheduling point before every
 //	                        statement, and x.f++ / x.f op= e split into load; yield; store
 //	                        (models unsynchronised read-modify-write at statement level)
 type Options struct {
@@ -276,8 +276,14 @@ func File(src, dst string, o Options) error {
 		if !ok || fd.Body == nil {
 			continue
 		}
-		if _, want := racyFuncs[fd.Name.Name]; want {
-			racyFuncs[fd.Name.Name] = true
+		_, all := racyFuncs["*"]
+		if _, want := racyFuncs[fd.Name.Name]; want || all {
+			if want {
+				racyFuncs[fd.Name.Name] = true
+			}
+			if all {
+				racyFuncs["*"] = true
+			}
 			r.racyBlock(fd.Body)
 			r.needShed = true
 		}
